@@ -2,8 +2,9 @@
 
 Proof: Poly/Props/C11.lean (write set = byte-ordered last writes; equal last-write maps give equal write set
 and digest for every hash function; permutations, redundant overwrites, delete-then-put, grouping into
-transactions). Tie: correspondence stream `digest` (harness hkv runs the real OverlayDB.ChangeHash /
-GetWriteSet, directly and through CacheDB.Commit; drv_kv runs the model with SHA-256).
+transactions). Tie: correspondence streams `digest` (harness hkv runs the real OverlayDB.ChangeHash /
+GetWriteSet, directly and through CacheDB.Commit) and `blockdigest` (the real Ledger.ExecuteBlock on a ledger
+holding the genesis block, transactions calling a scripted native contract); drv_kv runs the model with SHA-256.
 Search: the harness compares every digest with SHA-256 over the sorted net writes computed from a Go map, and
 all sequences of one family that have the same net effect with each other.
 """
@@ -14,14 +15,18 @@ def run(ctx):
     ctx.assumptions += [
         "the hash function is a parameter of the theorems; the driver uses a Lean SHA-256 whose agreement with crypto/sha256 "
         "is what the correspondence observes",
-        "handleTransaction is modelled only as far as the state layers go: cache.Reset, writes, Commit on success (C15/C16 own the rest)",
+        "handleTransaction is modelled only as far as the state layers go: cache.Reset, writes, Commit on success (C15/C16 own the rest); "
+        "this discipline is what the blockdigest stream observes on the real block executor",
         "StateStore.AddStateMerkleTreeRoot consumes only the digest (by inspection; the accumulator itself is C06)",
     ]
-    ctx.cov["trusted_base"] += ["harness hkv/digest + drv_kv (correspondence check)", "Lean compiler for the driver"]
+    ctx.cov["trusted_base"] += ["harness hkv/digest + hkv/blockdigest + drv_kv (correspondence check)", "Lean compiler for the driver"]
     ctx.lean_props()
     hbin = ctx.build_harness("hkv")
     drv = ctx.build_driver("drv_kv")
     if hbin:
         res = ctx.correspondence("digest", hbin, ["digest"], drv, ["digest"])
         ctx.judge(res, theorem_hint="Poly.Props.C11.* (model changeHash/writeSet no longer matches OverlayDB.ChangeHash/GetWriteSet)")
+        res = ctx.correspondence("blockdigest", hbin, ["blockdigest"], drv, ["blockdigest"])
+        ctx.judge(res, theorem_hint="Poly.Props.C11.block_buffer_is_replay / digest_tx_grouping (model runBlock no longer matches "
+                                    "Ledger.ExecuteBlock's digest and write set)")
     ctx.judge_lean()
